@@ -18,7 +18,9 @@ const (
 // control attributes.
 type URL url.URL
 
-var escapeRegexp = regexp.MustCompile(`^(.+?)://(.*?)@(.*?)/(.*?)$`)
+// the user info ends at the first @ of the authority,
+// it can't extend into the path or the query.
+var escapeRegexp = regexp.MustCompile(`^(.+?)://([^/?]*?)@(.*?)/(.*?)$`)
 
 // ParseURL parses a RTSP URL.
 func ParseURL(s string) (*URL, error) {
